@@ -5,7 +5,7 @@
    Satisfiability of the hypotheses: C01/Examples.v. *)
 From Coq Require Import List Bool Arith Lia.
 From QV Require Import Base.Mat C01.Model C01.Spec C01.Lib C01.ProofsSV C01.ProofsCtrl C01.ProofsMat
-  C01.ProofsRun C01.ProofsDM C01.ProofsRunDM.
+  C01.ProofsRun C01.ProofsDM C01.ProofsRunDM C01.ProofsDMCor.
 Import ListNotations.
 
 (* right einsum with conj(M), then left einsum with M *)
@@ -47,3 +47,27 @@ Theorem dm_run_ok : forall (T : Type) (K : ops T) (cj : T -> T), semiring K -> c
   execute_dm K cj n gs rho = sandwich K cj n (circ_op K n gs) rho.
 Proof. exact @execute_dm_eq. Qed.
 Print Assumptions dm_run_ok.
+
+(* consequences.  outer n v w = |v><w|, mtrace = trace, hermitian n A := madj A = A.
+   Positivity needs an order on the carrier and is not stated: it follows from the form U rho U^dagger. *)
+Theorem dm_pure_ok : forall (T : Type) (K : ops T) (cj : T -> T), semiring K -> conj_ok K cj ->
+  forall n (gs : list gate) (psi : vec T), Forall (gate_wf n) gs -> length psi = 2 ^ n ->
+  execute_dm K cj n gs (outer K cj n psi psi) = outer K cj n (execute K n gs psi) (execute K n gs psi).
+Proof. exact @dm_pure_eq. Qed.
+Print Assumptions dm_pure_ok.
+
+Theorem dm_hermitian_ok : forall (T : Type) (K : ops T) (cj : T -> T), semiring K -> conj_ok K cj ->
+  (forall a, cj (cj a) = a) ->
+  forall n (gs : list gate) (rho : mat T), Forall (gate_wf n) gs -> wf_mat n rho ->
+  hermitian K cj n rho -> hermitian K cj n (execute_dm K cj n gs rho).
+Proof. exact @dm_hermitian_eq. Qed.
+Print Assumptions dm_hermitian_ok.
+
+(* the trace is preserved when the circuit operator is an isometry (U^dagger U = 1); unitarity of the
+   individual gate tables is the subject of the table obligations of C01, not of this file *)
+Theorem dm_trace_ok : forall (T : Type) (K : ops T) (cj : T -> T), semiring K -> conj_ok K cj ->
+  forall n (gs : list gate) (rho : mat T), Forall (gate_wf n) gs -> wf_mat n rho ->
+  mmul K (madj K cj n (circ_op K n gs)) (circ_op K n gs) = midentity K n ->
+  mtrace K n (execute_dm K cj n gs rho) = mtrace K n rho.
+Proof. exact @dm_trace_eq. Qed.
+Print Assumptions dm_trace_ok.
